@@ -1,16 +1,17 @@
 #!/bin/bash
-# usage: confirm_seed.sh <worktree> <demo cargo args...>
-# Confirms: (1) existing suite passes with the change, (2) demo fails with it, (3) demo passes without it.
-wt=$1; shift
+# usage: confirm_seed.sh <worktree> <demo-name-substring> <demo cargo args...>
+# Confirms: (1) existing suite passes with the change (demo tests excluded), (2) demo fails with it, (3) demo passes without it.
+wt=$1; demo=$2; shift; shift
 cd "$wt" || exit 2
 export CARGO_NET_OFFLINE=true
-echo "== patch applies to the worktree state:"; git diff --stat -- src | tail -3
-echo "== (1) existing suite WITH the change (demo excluded)"
-cargo test --workspace --no-fail-fast --offline --lib --bins --test feox_migrate_cli 2>&1 | grep -E "^test result|FAILED|failed" | head -10
+bugfiles=$(grep '^+++ b/' patch.diff | sed 's#^+++ b/##')
+echo "== bug files: $bugfiles"
+echo "== (1) existing suite WITH the change (failures other than the demo's are listed)"
+cargo test --workspace --no-fail-fast --offline --lib --bins --test feox_migrate_cli 2>&1 | grep -E "^test result|^test .*FAILED" | grep -v "$demo" | head -10
 echo "== (2) demo WITH the change"
-cargo test --offline "$@" 2>&1 | grep -E "^test result|^test .*FAILED|panicked" | head -10
-git stash push -q -- src
+cargo test --offline "$@" 2>&1 | grep -E "^test result|^test .*FAILED" | head -10
+git stash push -q -- $bugfiles
 echo "== (3) demo WITHOUT the change"
-cargo test --offline "$@" 2>&1 | grep -E "^test result|^test .*FAILED|panicked" | head -10
+cargo test --offline "$@" 2>&1 | grep -E "^test result|^test .*FAILED" | head -10
 git stash pop -q
-echo "== restored:"; git diff --stat -- src | tail -1
+echo "== restored:"; git diff --stat -- $bugfiles | tail -1
